@@ -36,6 +36,41 @@ CLAIMED = {
         "Trusted: Coq kernel; CPython GIL atomicity of single attribute/dict/list bytecodes; the model covers Ruler.__cache__ only, thread-locality of the rest of a parse is explored (quick: ~5000 schedules), not proved; sys.monitoring delivers every INSTRUCTION/LINE event of the registered code objects.",
         "DESIGN.md §3 C13",
     ),
+    "C15": (
+        "proof",
+        "Coq proofs by nested induction over tokens / token lists (dict round trip, tree round trip, render fixed point) on hand models of token.py, tree.py, renderer.py + function-level differential correspondence on parser-produced streams",
+        "Theorems for ALL tokens and token lists (a superset of the reachable streams): from_dict(as_dict(t)) = t in all four flag combinations (children x as_upstream) at any nesting depth, for attrs dicts with unique keys (C15_dict_roundtrip), hence identical rendering; SyntaxTreeNode(tokens).to_tokens() is the identical sequence whenever the tree builds (C15_tree_roundtrip); render is a fixed point after the first run and changes nothing but attrs (C15_render_repeatable, C15_render_keeps_structure). Each run compares as_dict/from_dict (structure of the dict included), tree build/to_tokens/walk and render of the model with the implementation on ~700 (quick) streams from the real parser under standard and random configurations, and evaluates the property itself on the implementation (round trips in all flag combinations, render twice, walk order, parent/child/sibling links).",
+        "Trusted: Coq kernel; hand models tied to the code by the sampled correspondence; walk order and link consistency are object-graph facts checked on the implementation, the model states tree structure only; 'the tree always builds for parser streams' rests on C02 (well-nestedness), checked on the implementation here.",
+        "DESIGN.md §3 C15",
+    ),
+    "C19": (
+        "proof",
+        "Coq proofs (invariants over the smartquotes scan/stack loop, induction over token lists) on line-by-line models of replacements.py / smartquotes.py / text_join.py + function-level differential correspondence + off/on pipeline comparison on the implementation",
+        "Theorems for ALL token lists and ANY quotes option: replacements and smartquotes return a stream of the same length in which every token is unchanged except the content of tokens of type text (C19_replacements_shape, C19_smartquotes_shape); escapes/entities (text_special), code, raw HTML, link tokens are byte-identical (C19_non_text_untouched); text_join merges by type only, so the final stream has the same shape with the typographer on or off (C19_typographer_shape). Each run: the real replace()/smartquotes() vs the model on ~900 (quick) parser-produced streams with 9 quotes settings (empty, multi-character, containing quotes); the property on the implementation: parse off vs on x {replacements, smartquotes, both}: same shape, non-text identical, autolink text identical, smartquotes alone only substitutes straight quotes in place.",
+        "Trusted: Coq kernel; models tied by sampled correspondence; regexes of the substitutions regenerated from /repo (CPython's parser, character sets asked of CPython) and interpreted by Base/Regex.v; 'only straight quotes are substituted' and 'autolink text untouched' are checked on the implementation, not yet theorems.",
+        "DESIGN.md §3 C19",
+    ),
+    "C04": (
+        "proof",
+        "Coq proofs (escapeHtml safety for every string by induction; chunk discipline of the renderer model for every html-free token list) + differential correspondence of the renderer + strict HTML grammar checker on implementation output",
+        "Theorems: for EVERY string escapeHtml yields no < > double-quote and only its own four entities, and the four replace passes of the source compute exactly that function (C04_escape_safe, C04_escape_as_written); for EVERY token list without html_block/html_inline tokens and without highlight, the renderer emits only fixed renderer literals, '<tag'/'</tag' of token tags, and escaped data - no raw chunk (C04_only_renderer_markup, C04_attrs_escaped). Parser side (no html tokens when options.html is falsy; tags from the fixed vocabulary; balanced pairs) is not yet a theorem: it is decided on the implementation each run by a strict HTML checker (nesting, tag/attribute vocabulary, escaping in text and attribute values) over html-off configurations (all three option routes, html rules force-enabled) with metacharacters placed in every data slot.",
+        "Trusted: Coq kernel; renderer model tied by sampled correspondence; parser-side half by exploration only (partial).",
+        "DESIGN.md §3 C04",
+    ),
+    "C17": (
+        "proof",
+        "Coq proof by induction over strings on the normalize model (all per-line mixtures of LF/CRLF/CR; NUL vs U+FFFD) + correspondence of normalize (direct definition and regenerated regexes vs implementation) + pipeline comparison under encodings + column-constructed tab/space twins",
+        "Theorems for ALL strings: every re-encoding of the line ends of a CR-free text (any per-line choice of LF, CR LF, lone CR) normalises to the same string; NUL behaves exactly like U+FFFD; no CR or NUL survives; normalize is idempotent (C17_line_endings, C17_crlf, C17_nul_is_fffd, C17_no_cr_nul_left). Since normalize is the first core rule and everything after reads only state.src, tokens, maps, env and HTML coincide - checked on the implementation for every sampled document under LF / CRLF / CR / mixed and NUL/U+FFFD in standard and random configurations. Tab half (structural tabs == spaces to the next tab stop): decided in this run by exploration on the implementation with column-exact constructed twins (leading-whitespace family (a), container-segment family (b) incl. nested quotes continued over several lines), compared modulo the blanks the property exempts; its column-arithmetic theorems belong to the block model and are not claimed yet.",
+        "Trusted: Coq kernel; normalize model tied by correspondence; tab half by exploration (partial); comparison of verbatim blocks / code spans / raw inline HTML / image labels / titles is modulo the spelling of blanks (DESIGN.md reading).",
+        "DESIGN.md §3 C17",
+    ),
+    "C18": (
+        "proof",
+        "Coq proofs of option locality on the renderer chunk model (all token lists) + differential correspondence of the renderer under all option combinations + context / parseInline exploration on the implementation",
+        "Theorems for ALL token lists: with xhtmlOut on vs off the tokens left behind are equal and the outputs coincide once the void-tag spellings are erased (C18_xhtmlOut_local); breaks only selects the hard-break spelling for softbreak tokens (C18_breaks_local); breaks/langPrefix/highlight are read for softbreak and fence tokens only (C18_option_frame); langPrefix changes only escaped data inside a fence (C18_langPrefix_local). Each run: implementation vs model under random (xhtmlOut, breaks, langPrefix, 4 highlighters); on the implementation: renderer-only options leave the token stream untouched and change HTML only in their place; parseInline/renderInline == the paragraph's children/HTML on single-paragraph inputs; the same guarded inline text yields the same inline tokens in paragraph, heading, list item, block quote and table cell, and when it occurs twice in a document.",
+        "Trusted: Coq kernel; renderer model tied by correspondence; the context half (block parser hands the same string to the inline parser in every context) is exploration only until the block model is in (partial).",
+        "DESIGN.md §3 C18",
+    ),
 }
 
 NOT_YET = {}
